@@ -799,6 +799,17 @@ func elementStrideRule(c *Ctx, r *Result, rule string, floor int) {
 			n++
 			k++
 			r.Check(S >= w.C, rule, fmt.Sprintf("%s#element-%d", c.Name(fn), k), c.InstrPos(sl), fmt.Sprintf("elements of %d bytes are taken every %d bytes", w.C, S))
+			// the buffer the elements go into was made for elements of that size: make([]byte, K*len(v)) has K = S
+			if ms, isMS := sl.X.(*ssa.MakeSlice); isMS {
+				ll := fb.lin(ms.Len)
+				if ll.C == 0 && len(ll.T) == 1 {
+					for sym, K := range ll.T {
+						if _, isLen := sym.(lenKey); isLen && K > 0 {
+							r.Check(K == S, rule, fmt.Sprintf("%s#buffer-for-element-%d", c.Name(fn), k), c.InstrPos(ms), fmt.Sprintf("the buffer holds %d bytes per element, the elements are placed every %d bytes", K, S))
+						}
+					}
+				}
+			}
 		})
 	}
 	if n < floor {
@@ -3387,4 +3398,12 @@ func init() {
 func init() {
 	registry["C12"].Meta.Rules["C12.19"] = "heap objects are padded to 8 bytes and no further: " + registry["C06"].Meta.Rules["C06.2"] + " - the test and the padding use the same modulus (shared with C06.2: in encodeHeapCollection `offset%16 != 0` in front of `8 - offset%8` adds 8 bytes after every element that ends on an odd multiple of 8, and every later element of the collection is no longer found)"
 	registry["C12"].Rules = append(registry["C12"].Rules, func(c *Ctx, r *Result) { aliasRule(c, r, "C06", c06padding, "C06.2", "C12.19") })
+}
+
+func init() {
+	txt := registry["C02"].Meta.Rules["C02.15"]
+	registry["C12"].Meta.Rules["C12.20"] = "the elements of a variable-length sequence are laid out one after the other: " + txt + "; and a buffer made as K*len(v) bytes is filled with elements placed every K bytes (shared with C02.15 / C06.13: writeVLen encodes every sequence element through this shape)"
+	registry["C12"].Rules = append(registry["C12"].Rules, func(c *Ctx, r *Result) { elementStrideRule(c, r, "C12.20", 8) })
+	registry["C01"].Meta.Rules["C01.21"] = "dataset elements are laid out one after the other: " + txt + " (shared with C02.15 / C06.13: the integer and float encoders and decoders of dataset content)"
+	registry["C01"].Rules = append(registry["C01"].Rules, func(c *Ctx, r *Result) { elementStrideRule(c, r, "C01.21", 8) })
 }
